@@ -120,7 +120,7 @@ register("C18", "props.c18", ["ValidaProofs.C18", "ValidaProofs.C05Walk"], 800, 
          "one case = schemas S (0-3 rules) and T (1-3 rules), T added to S under 1-3 distinct concrete roots, then a document with "
          "sub-documents at the roots validated with the extended S and compared with S plus T-at-root; T snapshot (identity-aware) "
          "after every addition; distinct = (#S rules, #T rules, #roots, valid); non-trivial = some rule tested")
-register("C20", "props.c20", ["ValidaProofs.C20", "ValidaProofs.C20TypeFmt"], 600, 15000,
+register("C20", "props.c20", ["ValidaProofs.C20", "ValidaProofs.C20TypeFmt", "ValidaProofs.C20Tree"], 600, 15000,
          "one case = a prefix-closed schema (depth<=3, string / integer keys incl. HTML metacharacters, bare map / list parts, "
          "type / length / membership / allowed / required-keys conditions combined with and (sometimes or / xor), doc blocks with "
          "HTML metacharacters and back-ticks), a sub-tree root (40%), an anchor root (50%): flat and nested tree compared with the "
